@@ -507,6 +507,18 @@ def orderMatchValidate (env : Env) (rules : Rules) (b : Batch) (best : UInt32) (
     | .error e => (.error e, pending)
     | .ok () => (.ok st, some b.id)
 
+/-- A sequence of proposals handled by ONE long-lived manager / verifier (the auctioneer re-sends the prepare message
+of a batch, possibly for the same batch ID, while the trader's database may change in between): the verdict of each
+and the pending batch at the end.  The only state carried from one proposal to the next is `pendingBatch` – the
+`batchVerifier` itself has none (its fields are fixed at start-up; accounts and orders are read afresh each time). -/
+def validateSeq (rules : Rules) : List (Env × Batch × UInt32) → Option String →
+    List (Except Err Tallies) × Option String
+  | [], p => ([], p)
+  | (env, b, best) :: rest, p =>
+    let r := orderMatchValidate env rules b best p
+    let rs := validateSeq rules rest r.2
+    (r.1 :: rs.1, rs.2)
+
 /-! ## `order/rpc_parse.go`: `ParseRPCBatch` (decision-relevant part) -/
 
 /-- `auctioneerrpc.ServerAsk` / `ServerBid` with its `MatchedAsk/MatchedBid.UnitsFilled` -/
